@@ -98,9 +98,10 @@ def run(ctx):
         from vcheck import ToolError
         raise ToolError("vacuity: LexerFeat explored %d states" % r.distinct)
     inputs = []
-    for a in ("layout", "strs", "nums"):
+    # "unicomment": comments holding 2-, 3- and 4-byte characters (the two builds have separate comment scanners)
+    for a in ("layout", "strs", "nums", "unicomment"):
         rr = ctx.tlc("lexer", "LexerMC", "LexerMC_%s_%s.cfg" % (a, "quick"), timeout=3000, coverage=False)
-        cases = rr.replays if not ctx.quick else rr.replays[::3]
+        cases = rr.replays if not ctx.quick or a == "unicomment" else rr.replays[::3]
         inputs += [(lc.conc(c["inp"]), "Module") for c in cases]
         if a == "nums":
             inputs += [(lc.conc(c["inp"]), "Expression") for c in cases[::2]]
